@@ -1518,6 +1518,7 @@ func checkC18(w *World) {
 	w.include(P, "C07", "R07.5")  // the zero-argument string functions read the context result itself
 	w.include(P, "C13", "R13.1")  // a sub-query leaves the document and the bindings as they were for the next one
 	w.include(P, "C01", "R01.14") // the principal node type of a step does not depend on the steps evaluated before it
+	w.include(P, "C01", "R01.11") // an attribute or namespace node as the starting node: following and preceding are taken from its place in document order
 }
 
 // selectorLocal: the selector treats every node of the incoming node-set independently: the parameter is only
